@@ -1925,6 +1925,17 @@ func (c *FuncCtx) callFuncValue(st *State, fv *Val, key string, x *ast.CallExpr)
 	if con := c.eng.spec.Contracts[key]; con != nil {
 		return c.applyContract(st, con, sig, nil, args, x.Pos(), key)
 	}
+	// A function literal of this very function, still known to be the value of
+	// the variable (bound once, no merge lost it), whose body is a side-effect
+	// free chain of ifs ending in a return: the call is the body, evaluated in
+	// the current state - captured variables are read as they are now, as Go
+	// closures do (benign change B41: a repeated test hoisted into a literal).
+	if fl := fv.Closure; fl != nil && fl.Body != nil && pureChain(fl.Body.List) {
+		fd := &ast.FuncDecl{Name: ast.NewIdent(key), Type: fl.Type, Body: fl.Body}
+		if vals, ok := c.inlinePure(st, key, fd, sig, nil, args, x.Pos()); ok {
+			return vals
+		}
+	}
 	// results are unconstrained (a callback may answer differently each time)
 	var results []*Val
 	for i := 0; i < sig.Results().Len(); i++ {
